@@ -76,6 +76,38 @@ def g_uuid(u):
     return '{| f_low := %d; f_mid := %d; f_hiv := %d; f_csh := %d; f_csl := %d; f_node := %d |}' % f
 
 
+class DstZone(datetime.tzinfo):
+    """a zone with daylight saving: UTC-5 in months 11..3, UTC-4 in months 4..10 (rule on the local month)"""
+    def utcoffset(self, dt):
+        return datetime.timedelta(hours=-4 if 4 <= dt.month <= 10 else -5)
+
+    def dst(self, dt):
+        return datetime.timedelta(hours=1 if 4 <= dt.month <= 10 else 0)
+
+    def tzname(self, dt):
+        return 'DST'
+
+
+AWARE = {'aware+0530': 330, 'aware-0800': -480, 'aware+1400': 840, 'aware+0000': 0, 'aware-dst': None}
+
+
+def aware_datetime(us, via):
+    """the instant `us` microseconds after the epoch as a timezone-AWARE datetime in the zone named by `via` (None: not expressible)"""
+    naive = datetime.datetime(1970, 1, 1) + datetime.timedelta(microseconds=us)
+    try:
+        if AWARE[via] is not None:
+            off = datetime.timedelta(minutes=AWARE[via])
+            return (naive + off).replace(tzinfo=datetime.timezone(off))
+        tz = DstZone()
+        for hours in (-4, -5):
+            local = (naive + datetime.timedelta(hours=hours)).replace(tzinfo=tz)
+            if tz.utcoffset(local) == datetime.timedelta(hours=hours):
+                return local
+    except OverflowError:
+        pass
+    return None
+
+
 # ---------------------------------------------------------------- single cases (used by run and replay)
 def date_case(n):
     """-> (violations [(key, what)], observations dict)"""
@@ -181,6 +213,12 @@ def uuid_case(us, node, clock, via):
     obs = {'us': us, 'node': node, 'clock': clock, 'via': via}
     if via == 'datetime':
         arg = datetime.datetime(1970, 1, 1) + datetime.timedelta(microseconds=us)
+    elif via in AWARE:
+        arg = aware_datetime(us, via)
+        if arg is None:
+            return v, None
+        # self-check of the harness: the aware datetime denotes the intended instant
+        assert arg - datetime.datetime(1970, 1, 1, tzinfo=datetime.timezone.utc) == datetime.timedelta(microseconds=us)
     elif via == 'int':
         arg = us // 10 ** 6
         us = arg * 10 ** 6
@@ -197,7 +235,7 @@ def uuid_case(us, node, clock, via):
             v.append(('uuid_from_time.rejected_valid', 'uuid_from_time(%r, %d, %d) raised' % (arg, node, clock)))
         return v, obs
     obs['int'] = u.int
-    if via == 'datetime' and abs(us * 10) >= 2 ** 56:
+    if via != 'float' and via != 'int' and abs(us * 10) >= 2 ** 56:
         # the datetime path multiplies in floating point: beyond 2^56 intervals (year ~2198) its rounding exceeds half a microsecond.
         # DESIGN C34 "not covered": recorded as evidence, not judged (and not compared with the exact model)
         obs['float_limited'] = True
@@ -218,8 +256,15 @@ def uuid_case(us, node, clock, via):
         pass
     lo, hi = U.min_uuid_from_time(arg), U.max_uuid_from_time(arg)
     obs['min'], obs['max'] = lo.int, hi.int
-    if lo.time != u.time or hi.time != u.time:
-        v.append(('min_max_uuid.other_instant', 'min/max uuid of %r carry another timestamp' % (arg,)))
+    want = us * 10 + OFFSET
+    if abs(u.time - want) >= 10:
+        v.append(('uuid_from_time.other_instant', 'uuid_from_time(%r) carries timestamp %d, the instant is %d (off by %s us)'
+                  % (arg, u.time, want, (u.time - want) // 10)))
+    if abs(lo.time - want) >= 10 or abs(hi.time - want) >= 10 or lo.time != u.time or hi.time != u.time:
+        v.append(('min_max_uuid.other_instant', 'min/max uuid of %r carry timestamps %d / %d, the instant is %d: they do not bracket '
+                  'the time-UUIDs of that instant' % (arg, lo.time, hi.time, want)))
+    if v:
+        pass
     elif cass_cmp(lo, u) > 0:
         v.append(('min_uuid_from_time.not_lower_bound', 'min_uuid %s sorts after %s in Cassandra order' % (lo, u)))
     elif cass_cmp(u, hi) > 0:
@@ -380,8 +425,8 @@ def run(ctx):
                        rng.choice(clock_pool) if rng.random() < 0.4 else rng.getrandbits(14)))
     pyu = []
     for (us, node, clock) in ucases:
-        via = rng.choice(['float', 'float', 'int', 'datetime'])
-        if via == 'datetime' and not (-62135596800 * 10 ** 6 <= us <= 253402300799999999):
+        via = rng.choice(['float', 'float', 'int', 'datetime'] + sorted(AWARE))
+        if via not in ('float', 'int') and not (-62135596800 * 10 ** 6 <= us <= 253402300799999999):
             via = 'int'
         case = {'t': 'uuid', 'us': us, 'node': node, 'clock': clock, 'via': via}
         v, obs = uuid_case(us, node, clock, via)
@@ -398,7 +443,7 @@ def run(ctx):
             continue
         if obs.get('raised'):
             terms.append('negb (uuid_accepts %s %s)' % (zl(node), zl(clock)))
-        elif 0 <= clock and via == 'datetime' and abs(us * 10) >= 2 ** 53:
+        elif 0 <= clock and via not in ('float', 'int') and abs(us * 10) >= 2 ** 53:
             # datetime arguments go through float arithmetic (seconds * 1e6 + microsecond, then * 10): beyond 2^53 the 100 ns digit is
             # rounded (below 2^56: by at most 8 intervals).  Compared: low 64 bits exactly, timestamp within 8 intervals.
             terms.append('uuid_accepts %s %s && (uuid_int (uuid_from_us %s %s %s) mod 2 ^ 64 =? %d) && '
@@ -428,7 +473,7 @@ def run(ctx):
     ctx.rule = ('dates: boundary days (month ends of 12 marker years, leap days, range ends) + uniform sample of years 1..9999 '
                 '(thorough: ALL 3,652,059 days); Time: nanosecond boundaries, uniform in-day sample, out-of-range ints, well-formed and '
                 'malformed strings with 0..9 fraction digits; time-UUIDs: boundary pools x random for (microseconds, node, clock) via '
-                'float / int / datetime arguments; non-trivial = every distinct input')
+                'float / int / naive datetime / timezone-aware datetime (+05:30, -08:00, +14:00, UTC, DST zone) arguments; non-trivial = every distinct input')
     if not any(x[0].startswith('translate:') for x in ctx.proof_broken):
         try:
             bad = ctx.coq_filter(['PyBase', 'UtilTime', 'DecDigits', 'Civil', 'TimeOfDay', 'TimeUUID'], '(fun b : bool => b)', terms, shard=250,
